@@ -216,6 +216,41 @@ def run(check):
   if not seen_filter:
     r_lg.ok('no strategy filters by MIN_TIMESTAMP_LAG', 'lib/carbon/cache.py')
 
+  # ------------------------------------------------------------------ a failing write does not end the pass
+  r_pf = check.rule('R-C04-pass-survives-faults', 1, 'a backend failure while writing one metric does not end the drain pass (the last '
+                    'pass has nobody to retry it)')
+  DBC = {'TimeSeriesDatabase'}
+  wcalls = nodes_calling(gc, lambda c: cx.calls_method(c, wc, DBC, 'write') or cx.calls_method(c, wc, DBC, 'create'))
+  for w in wcalls:
+    esc = [y for y, lab in w.succ if lab == 'exc' and y is gc.raise_exit]
+    # which handlers guard the call, and what do they catch
+    trys = []
+    p_ = getattr(w.ast, '_parent', None)
+    while p_ is not None and p_ is not wc.node:
+      if isinstance(p_, ast.Try) and any(x is w.ast for b_ in p_.body for x in ast.walk(b_)):
+        trys.append(p_)
+      p_ = getattr(p_, '_parent', None)
+    broad = any(h.type is None or (dotted(h.type) in ('Exception', 'BaseException')) or
+                (isinstance(h.type, ast.Tuple) and any(dotted(e) in ('Exception', 'BaseException') for e in h.type.elts))
+                for t_ in trys for h in t_.handlers)
+    if broad:
+      r_pf.ok('failure of `%s` is caught inside the pass' % short(w.ast, 40), wc.loc(w.ast))
+    else:
+      r_pf.violate('backend failure ends the pass', wc, w.ast, 'an exception raised by `%s` is not caught by an `except Exception` inside '
+                   'writeCachedDataPoints (handlers: %s): it ends the whole pass, and when that is the pass after the stop every metric '
+                   'still queued stays in the cache as the writer thread exits' % (
+                     short(w.ast, 50), ', '.join(unparse(h.type) if h.type is not None else 'bare' for t_ in trys for h in t_.handlers) or 'none'))
+
+  # ------------------------------------------------------------------ a store racing the last drain is not orphaned
+  from ..cachemodel import CacheModel
+  from .c02 import rule_lockset, rule_escape
+  cmx4 = CacheModel(cx)
+  r_il = check.rule('R-C04-store-interleaving', 10, 'a datapoint accepted while the writer drains is either still in the cache or in the '
+                    'drained batch (shared with C02/C03): every cache access of store/drain holds the lock, no per-metric dict is used '
+                    'across critical sections')
+  rule_lockset(check, cmx4, r_il)
+  rule_escape(check, cmx4, r_il)
+
   # ------------------------------------------------------------------ thread
   r_th = check.rule('R-C04-thread', 1, 'the writer loop runs in the reactor thread pool')
   found = False
